@@ -27,9 +27,11 @@ class Program:
         self._src = {}
         self.compiled = {}       # id(fn) -> {bb: [stmts]}
         self.crates = []
+        self.crate_roots = {}
 
     # ---- loading
-    def load(self, mirfile, crate):
+    def load(self, mirfile, crate, root=None):
+        if root: self.crate_roots[crate] = root
         fns = parse_file(mirfile, crate)
         self.consts.update(const_table(mirfile))
         self.crates.append((crate, mirfile, len(fns)))
@@ -79,21 +81,25 @@ class Program:
             if vs and name not in STD_VARIANTS:
                 self.variants[name] = vs
 
-    def src_lines(self, file):
-        if file not in self._src:
-            p = file if os.path.isabs(file) else os.path.join(self.root, file)
-            self._src[file] = open(p, errors="replace").read().split("\n")
-        return self._src[file]
+    def src_lines(self, file, crate=None):
+        key = (crate if crate in self.crate_roots else None, file)
+        if key not in self._src:
+            root = self.crate_roots.get(crate, self.root)
+            p = file if os.path.isabs(file) else os.path.join(root, file)
+            self._src[key] = open(p, errors="replace").read().split("\n")
+        return self._src[key]
 
-    def _impl_header(self, file, line, col):
+    def _impl_header(self, file, line, col, crate=None):
         """-> (type_last_segment, trait_last_segment or None)"""
-        L = self.src_lines(file)
+        L = self.src_lines(file, crate)
         text = L[line - 1][col - 1:]
         if text.startswith("impl") or text.startswith("unsafe impl"):
             j = line
             while "{" not in text and j < len(L):
                 text += " " + L[j].strip(); j += 1
             text = text[:text.index("{")]
+            text = re.sub(r"\s*(::|<|,)\s*", r"\1", text)        # token-stream spacing of generated code
+            text = re.sub(r"\s+>", ">", text)
             text = re.sub(r"^(unsafe )?impl\s*", "", text)
             if text.startswith("<"):
                 text = text[match_paren(text, 0) + 1:]
@@ -101,12 +107,14 @@ class Program:
             h = strip_generics(text)
             if " for " in h:
                 tr, ty = h.split(" for ", 1)
-                return ty.strip(), tr.strip().split("::")[-1]
-            return h.strip(), None
+                return ty.strip().lstrip(":"), tr.strip().split("::")[-1]
+            return h.strip().lstrip(":"), None
         # derive: the span covers the trait name inside #[derive(..)]
         tm = re.match(r"(\w+)", text)
         trait = tm.group(1)
-        for j in range(line - 1, min(line + 40, len(L))):
+        m = re.search(r"\b(struct|enum|union)\s+(\w+)", text)
+        if m: return m.group(2), trait
+        for j in range(line, min(line + 40, len(L))):
             m = re.search(r"\b(struct|enum|union)\s+(\w+)", L[j])
             if m: return m.group(2), trait
         raise Unsupported(f"derive impl target not found at {file}:{line}")
@@ -116,7 +124,7 @@ class Program:
         m = re.search(r"<impl at ([^:>]+):(\d+):(\d+): \d+:\d+>::(.+)$", name)
         if m:
             try:
-                ty, tr = self._impl_header(m.group(1), int(m.group(2)), int(m.group(3)))
+                ty, tr = self._impl_header(m.group(1), int(m.group(2)), int(m.group(3)), f.crate)
             except Exception as e:
                 ty, tr = None, None
             rest = strip_generics(m.group(4))
@@ -214,6 +222,15 @@ class Program:
                 return ("assign", st[1], ("unop", rv[1], rv[2], self.type_of_operand(fn, rv[2])))
             if k == "cast":
                 return ("assign", st[1], ("cast", rv[1], rv[2], rv[3], self.type_of_operand(fn, rv[1])))
+            if k == "agg" and rv[1] == "adt" and "::" not in rv[2]:
+                # a variant imported by its bare name: the destination type names the enum
+                t = self.type_of_place(fn, st[1])
+                if t:
+                    ts = strip_generics(t)
+                    for en in (ts, ts.split("::")[-1], "::".join(ts.split("::")[-2:])):
+                        vs = self.variants.get(en)
+                        if vs is not None and rv[2] in vs:
+                            return ("assign", st[1], ("agg", "adt", f"{en}::{rv[2]}", rv[3]))
         if st[0] == "switch":
             return ("switch", st[1], st[2], st[3], self.type_of_operand(fn, st[1]))
         return st
@@ -510,9 +527,9 @@ class Interp:
                 cell = Cell(("static", ty)); self.W.statics[ty] = cell
             return Ptr(cell)
         sc = strip_generics(c)
-        m = re.match(r"(?:[\w]+::)*(\w+)::(\w+)$", sc)
-        if m and m.group(1) in self.P.variants and m.group(2) in self.P.variants[m.group(1)]:
-            return Enum(m.group(1), m.group(2), self.P.variants[m.group(1)].index(m.group(2)))
+        if re.match(r"(?:[\w]+::)+(\w+)$", sc):
+            v = self.make_adt(sc, [])
+            if type(v) is Enum: return v
         if "promoted[" in c:
             f = self.P.lookup(sc)
             if f is None: raise Unsupported("promoted const " + c)
@@ -592,8 +609,12 @@ class Interp:
 
     def make_adt(self, path, vals):
         segs = path.split("::")
-        if len(segs) >= 2 and segs[-2] in self.P.variants and segs[-1] in self.P.variants[segs[-2]]:
-            return Enum(segs[-2], segs[-1], self.P.variants[segs[-2]].index(segs[-1]), vals)
+        if len(segs) >= 2:
+            for j in range(0, len(segs) - 1):
+                en = "::".join(segs[j:-1])
+                vs = self.P.variants.get(en)
+                if vs is not None and segs[-1] in vs:
+                    return Enum(en, segs[-1], vs.index(segs[-1]), vals)
         if len(segs) == 1:
             # a variant imported by name (e.g. `BottomToTop`): unique owner enum
             owners = [en for en, vs in self.P.variants.items() if segs[0] in vs]
@@ -739,6 +760,14 @@ class Interp:
 
     # ---------------- calls
     def call(self, callee, key, args):
+        if key.endswith("::collect") and "collect::<" in callee:
+            tgt = callee[callee.rindex("collect::<") + 10:]
+            from .summaries import iter_to_list
+            if tgt.startswith(("Vec<", "alloc::vec::Vec<", "std::vec::Vec<")):
+                return VecObj(iter_to_list(self, args[0]))
+            if tgt.startswith(("String", "alloc::string::String", "std::string::String")):
+                return self.S["<String as FromIterator>::from_iter"](self, args[0])
+            raise Unsupported("collect into " + tgt[:60])
         s = self.S.get(key)
         if s is not None:
             return s(self, *args)
@@ -862,7 +891,7 @@ class Interp:
             m = re.search(r"<impl at ([^:>]+):(\d+):(\d+): \d+:\d+>", f.name)
             r = True
             if m:
-                txt = self.P.src_lines(m.group(1))[int(m.group(2)) - 1][int(m.group(3)) - 1:]
+                txt = self.P.src_lines(m.group(1), f.crate)[int(m.group(2)) - 1][int(m.group(3)) - 1:]
                 r = not (txt.startswith("impl") or txt.startswith("unsafe impl"))
             d[id(f)] = r
         return r
